@@ -62,32 +62,55 @@ func same(a, b ssa.Value) bool { return deepStrip(a) == deepStrip(b) }
 // through loads of locals to every value stored into them (in the function and
 // in closures that capture the local), and through all instruction operands.
 func depReaches(v ssa.Value, pred func(ssa.Value) bool) bool {
-	seen := map[ssa.Value]bool{}
-	var walk func(v ssa.Value, d int) bool
-	walk = func(v ssa.Value, d int) bool {
-		if v == nil || seen[v] || d > 60 {
+	// frame: a module function entered through one particular call (to look at what it returns): its parameters are
+	// the arguments of that call, not those of every call site
+	type frame struct {
+		call *ssa.Call
+		up   *frame
+	}
+	type key struct {
+		v ssa.Value
+		c *ssa.Call
+	}
+	seen := map[key]bool{}
+	var walk func(v ssa.Value, d int, fr *frame) bool
+	walk = func(v ssa.Value, d int, fr *frame) bool {
+		var cur *ssa.Call
+		if fr != nil {
+			cur = fr.call
+		}
+		if v == nil || seen[key{v, cur}] || d > 60 {
 			return false
 		}
-		seen[v] = true
+		seen[key{v, cur}] = true
 		if pred(v) {
 			return true
 		}
 		switch x := v.(type) {
 		case *ssa.Parameter:
+			// entered through a call: the parameter is that call's argument
+			for f := fr; f != nil; f = f.up {
+				if g := f.call.Call.StaticCallee(); g == x.Parent() {
+					if i := paramIdx(x); i >= 0 && i < len(f.call.Call.Args) {
+						return walk(f.call.Call.Args[i], d+1, f.up)
+					}
+					return false
+				}
+			}
 			for _, a := range callerArgs(x) {
-				if walk(a, d+1) {
+				if walk(a, d+1, nil) {
 					return true
 				}
 			}
 			return false
 		case *ssa.FreeVar:
 			if b := core.FreeVarBinding(x); b != nil {
-				return walk(b, d+1)
+				return walk(b, d+1, fr)
 			}
 			return false
 		case *ssa.Alloc:
 			for _, st := range allStoresTo(x) {
-				if walk(st.Val, d+1) {
+				if walk(st.Val, d+1, fr) {
 					return true
 				}
 			}
@@ -101,7 +124,7 @@ func depReaches(v ssa.Value, pred func(ssa.Value) bool) bool {
 							continue
 						}
 						for _, rr := range *rv.Referrers() {
-							if st, ok := rr.(*ssa.Store); ok && st.Addr == rv && walk(st.Val, d+1) {
+							if st, ok := rr.(*ssa.Store); ok && st.Addr == rv && walk(st.Val, d+1, fr) {
 								return true
 							}
 						}
@@ -113,11 +136,18 @@ func depReaches(v ssa.Value, pred func(ssa.Value) bool) bool {
 		if cv, ok := v.(*ssa.Call); ok {
 			// the result of a module function depends on what it returns
 			if g := cv.Call.StaticCallee(); g != nil && theProg != nil && g.Pkg != nil && theProg.IsModPkg(g.Pkg.Pkg) && !theProg.IsGenerated(g) {
-				for _, b := range g.Blocks {
-					if r, ok := b.Instrs[len(b.Instrs)-1].(*ssa.Return); ok {
-						for _, res := range r.Results {
-							if walk(res, d+1) {
-								return true
+				nf := &frame{call: cv, up: fr}
+				depth := 0
+				for f := fr; f != nil; f = f.up {
+					depth++
+				}
+				if depth < 4 {
+					for _, b := range g.Blocks {
+						if r, ok := b.Instrs[len(b.Instrs)-1].(*ssa.Return); ok {
+							for _, res := range r.Results {
+								if walk(res, d+1, nf) {
+									return true
+								}
 							}
 						}
 					}
@@ -126,14 +156,14 @@ func depReaches(v ssa.Value, pred func(ssa.Value) bool) bool {
 		}
 		if in, ok := v.(ssa.Instruction); ok {
 			for _, op := range in.Operands(nil) {
-				if *op != nil && walk(*op, d+1) {
+				if *op != nil && walk(*op, d+1, fr) {
 					return true
 				}
 			}
 		}
 		return false
 	}
-	return walk(v, 0)
+	return walk(v, 0, nil)
 }
 
 // allStoresTo lists stores into a local, including those made by closures that capture it.
